@@ -146,9 +146,10 @@ def run_unit(u):
         num = Numbering(g)
         marks = any(a in ("finish", "nofinish") for t in c["terms"] for a in t["attrs"])
         strlike = [0] + [1 if (type(t.recognizer) is StringRecognizer or t.keyword) else 0 for t in num.terms[1:]]
-        for lexdis in (True, False):
+        for lexdis, consume in ((True, True), (False, True), (True, False), (False, False)):
             try:
-                p = (Parser(g, lexical_disambiguation=True) if lexdis else GLRParser(g))
+                p = (Parser(g, lexical_disambiguation=True, consume_input=consume) if lexdis
+                     else GLRParser(g, consume_input=consume))
             except (SRConflicts, RRConflicts):
                 continue
             except Exception as e:
@@ -166,7 +167,7 @@ def run_unit(u):
             want_t = "table " + " ".join(str(x) for x in enc[:len(enc) - 1 - 2 * len(num.terms)])
             b.add("table", enc)
             checks = []
-            sample_inputs = rng.sample(inputs, min(len(inputs), 24))
+            sample_inputs = rng.sample(inputs, min(len(inputs), 24 if consume else 8))
             for text in sample_inputs:
                 b.add("input", enc_input(num, p, text))
                 for state in p.table.states:
@@ -175,7 +176,7 @@ def run_unit(u):
                     for pos in range(len(text) + 1):
                         head = LRStackNode(None, text, state, 0, pos, {})
                         case = {"grammar": gtxt, "ignore_case": c["ignore_case"], "lexical_disambiguation": lexdis,
-                                "state": state.state_id, "input": text, "position": pos}
+                                "consume_input": consume, "state": state.state_id, "input": text, "position": pos}
                         try:
                             toks = p._next_tokens(head)
                         except Exception as e:
@@ -186,7 +187,7 @@ def run_unit(u):
                                       for t in toks)
                         res["evaluations"] += 1
                         st["positions"] += 1
-                        qm = b.add("tokens", state.state_id, pos, 1, 1 if lexdis else 0)
+                        qm = b.add("tokens", state.state_id, pos, 1 if consume else 0, 1 if lexdis else 0)
                         qr = b.add("rules", state.state_id, pos, 1 if lexdis else 0, strlike) \
                             if (not marks and pos < len(text)) else None
                         checks.append((case, impl, qm, qr))
@@ -206,7 +207,7 @@ def run_unit(u):
                     st["rule_checks"] += 1
                     r = pairs(out[qr])
                     real = [x for x in impl if x[0] != 0]
-                    if r and sorted(r) != real and not (impl and impl[0][0] == 0 and not real):
+                    if r and sorted(r) != real:
                         res["violations"].append({"kind": "token-choice-differs-from-documented-rules",
                                                   "case": case, "observed": impl, "expected": r})
                     if len(r) >= 1 and len(real) == 0 and not any(x[0] == 0 for x in impl):
